@@ -8,7 +8,8 @@ import GoIpa.Model.Transcript
 import GoIpa.Model.Bary
 namespace GoIpa
 
-def str (s : String) : Bytes := s.toUTF8.toList
+/-- bytes of an ASCII string (all labels of the protocol are ASCII) -/
+def str (s : String) : Bytes := s.toList.map fun c => UInt8.ofNat c.toNat
 
 namespace Label
 def ipa := str "ipa"
